@@ -44,8 +44,83 @@ def budget(tier):
     return {"examples": 3000, "shards": 1} if tier == "quick" else {"examples": 20000, "shards": 16}
 
 
+CONFIG_MODS = ["si", "us", "avoirdupois", "troy", "energy", "astronomical", "natural", "metric", "iec", "iso", "fff", "computing", "geometry"]
+
+
+def config_ctx(mods):
+    """a context like convgen.ctx() for a fresh world with only `mods` imported (symbol tables,
+    and therefore what a text resolves to, depend on the set of imported modules)"""
+    from .. import model
+    from ..sizes import Sizes
+    from ..world import World
+
+    w = World(list(mods))
+    c = convgen.Ctx()
+    c.w, c.m, c.One = w, w.m, w.m.One
+    c.snap = model.Snapshot(w)
+    c.sizes = Sizes(w, w.m.One)
+    c.usym = dict(w.m.Unit._by_symbol)
+    c.uname = dict(w.m.Unit._by_name)
+    c.psym = dict(w.m.Prefix._by_symbol)
+    c.all_units = dict(c.snap.units)
+    c.prefixes = sorted(n for n in c.snap.prefixes if n)
+    return c
+
+
+def run_config(case, out):
+    """str -> parse round trip of every (prefix | none) x unit x exponent in {1, 2, -1} in a
+    world that imported only the listed modules"""
+    try:
+        mods = case["mods"]
+        if not isinstance(mods, list) or not all(m_ in CONFIG_MODS for m_ in mods):
+            raise ValueError
+    except Exception:
+        out.invalid = True
+        return
+    # modules are imported one after the other with a full pass after each import, so that
+    # texts are also parsed *before* a later module registers them as symbols
+    n = 0
+    for k in range(1, len(mods) + 1):
+        if k == 1:
+            c = config_ctx(mods[:1])
+        else:
+            c.w.load(mods[k - 1])
+            from .. import model
+            from ..sizes import Sizes
+
+            c.snap = model.Snapshot(c.w)
+            c.sizes = Sizes(c.w, c.m.One)
+            c.usym, c.uname, c.psym = dict(c.m.Unit._by_symbol), dict(c.m.Unit._by_name), dict(c.m.Prefix._by_symbol)
+            c.all_units = dict(c.snap.units)
+            c.prefixes = sorted(x_ for x_ in c.snap.prefixes if x_)
+        scratch = core.Outcome() if k < len(mods) else out
+        for p in [""] + c.prefixes:
+            for u in sorted(c.all_units):
+                for e in (1, 2, -1):
+                    x = (c.snap.prefixes[p] * c.all_units[u]) ** e
+                    _check_roundtrip(c, scratch, x, [[p, u, e]], [3])
+                    n += 1
+            if len(scratch.failures) > 200:
+                break
+    out.classes.append("config:units-checked")
+    out.nontrivial = "config|" + "+".join(mods)
+    out.sample = {"imported_modules": mods, "units_round_tripped": n}
+    convgen.ctx()  # back to the shared world
+
+
 def enumerate_cases(tier):
     out = []
+    # configurations: every shipped module on its own (with whatever it imports itself), and
+    # in the thorough tier every pair of modules
+    for mod in CONFIG_MODS:
+        out.append({"k": "config", "mods": [mod]})
+    for a, b in (("si", "us"), ("si", "metric"), ("us", "astronomical"), ("si", "iec")):
+        out.append({"k": "config", "mods": [a, b]})
+    if tier == "thorough":
+        for a in CONFIG_MODS:
+            for b in CONFIG_MODS:
+                if a != b and {"k": "config", "mods": [a, b]} not in out:
+                    out.append({"k": "config", "mods": [a, b]})
     for p in [""] + C.prefixes:
         for u in sorted(C.all_units):
             for e in (1, 2, 3, -1, -2, -3):
@@ -292,6 +367,9 @@ def run_case(case) -> core.Outcome:
     out = core.Outcome()
     c = convgen.ctx()
     m = c.m
+    if isinstance(case, dict) and case.get("k") == "config":
+        run_config(case, out)
+        return out
     try:
         kind = case["k"]
         terms = case["terms"]
